@@ -13,6 +13,8 @@
 -/
 import EinoV.Model.C11
 import EinoV.Proofs.C11
+import EinoV.Model.C11Paths
+import EinoV.Proofs.C11Paths
 import EinoV.Gen.FactsC11
 import EinoV.Expected.C11
 
@@ -33,7 +35,9 @@ theorem facts_match :
     FactsC11.cpSavesState = Expected.C11.cpSavesState ∧
     FactsC11.cpRestoredBeforeTasks = Expected.C11.cpRestoredBeforeTasks ∧
     FactsC11.preBeforeSpawn = Expected.C11.preBeforeSpawn ∧
-    FactsC11.postAfterDone = Expected.C11.postAfterDone := by decide
+    FactsC11.postAfterDone = Expected.C11.postAfterDone ∧
+    FactsC11.cpSavesOwnStateOnly = Expected.C11.cpSavesOwnStateOnly ∧
+    FactsC11.nodePathFresh = Expected.C11.nodePathFresh := by decide
 
 /-- Every one of the five wrappers of state.go holds the mutex of the state object
     (`mutexPerState`: the mutex that lives in the same `internalState`) around the user
@@ -497,5 +501,150 @@ example :
       [((none : Option (Nat → Nat)), none), (none, some 2)]) = [none, some 2] ∧
     visible none (resumePath srcTop srcSub
       [(some (· + 10), some 1), (some (· + 10), some 2)]) = [some 11, some 12] := by decide
+
+/-! ## node paths and the caller's modifier (Model/C11Paths.lean)
+
+  "…carried unchanged (apart from caller-supplied modification) across interrupt and resume …
+  for every nesting of stateful graphs": the caller's `StateModifier` is told *which* nested
+  graph's state it is handed by the node path.  -/
+
+/-- **node_paths_distinct.** In a nest of graph levels of any depth and any fan-out whose
+    node keys are unique inside every graph (`LTrees.WF`, what `AddNode` enforces), the
+    top-level graph has the empty path, every nested level's path is the enclosing graph's
+    path extended by its node key, every path below a graph starts with that graph's path,
+    and no two levels — in particular no two sibling graphs — have the same path. -/
+theorem node_paths_distinct (saved : Option S) (subs : LTrees S)
+    (h : LTrees.WF subs) (hk : (LTrees.keys subs).Nodup) :
+    ((nestLevels saved subs).map (·.1)).Nodup ∧
+    (nestLevels saved subs).head? = some ([], saved) ∧
+    (∀ key sv (ss : LTrees S) (p : List String),
+      LTree.levels (.mk key sv ss) p = (p ++ [key], sv) :: LTrees.levels ss (p ++ [key])) ∧
+    (∀ (ss : LTrees S) (p : List String), ∀ x ∈ LTrees.levels ss p,
+      ∃ k rest, k ∈ LTrees.keys ss ∧ x.1 = p ++ k :: rest) :=
+  ⟨nestLevels_nodup saved subs h hk, rfl, fun _ _ _ _ => rfl, LTrees.levels_shape⟩
+
+/-- **modifier_called_once_per_level.** During one resume the caller's modifier is called
+    exactly once for every restored level that has a state — with exactly that level's path
+    and exactly the state of that level's checkpoint — and for nothing else: the calls carry
+    pairwise distinct paths, `(q, s)` is a call iff the level with path `q` saved `s`, and
+    there are as many calls as levels with a state. -/
+theorem modifier_called_once_per_level (saved : Option S) (subs : LTrees S)
+    (h : LTrees.WF subs) (hk : (LTrees.keys subs).Nodup) :
+    let lv := nestLevels saved subs
+    ((modCalls lv).map (·.1)).Nodup ∧
+    (∀ q s, (q, s) ∈ modCalls lv ↔ (q, some s) ∈ lv) ∧
+    (modCalls lv).length = (lv.filter (·.2.isSome)).length := by
+  intro lv
+  exact ⟨(modCalls_paths_sublist lv).nodup (nestLevels_nodup saved subs h hk),
+    mem_modCalls lv, modCalls_length lv⟩
+
+/-- **resumed_state_by_path.** With the resume facts of the source, every level of the nest
+    that had a state at the interrupt works, after the resume, on exactly
+    `modifier path (checkpointed state)` for its *own* path (the checkpointed state itself
+    when the run is resumed without a modifier, or when the modifier leaves that path alone);
+    a level without state has nothing installed. -/
+theorem resumed_state_by_path (m : Option (List String → S → S)) (saved : Option S)
+    (subs : LTrees S) :
+    resumeNest srcTop srcSub m saved subs =
+      (nestLevels saved subs).map (fun x =>
+        (x.1, match x.2 with
+              | some s => Seen.own (applyMod (m.map (· x.1)) s)
+              | none => Seen.inherited)) ∧
+    (∀ q s, (q, some s) ∈ nestLevels saved subs → (∀ f, m = some f → f q = id) →
+      (q, Seen.own s) ∈ resumeNest srcTop srcSub m saved subs) := by
+  have ht : srcTop = ⟨true, true, true, true⟩ := by decide
+  have hs : srcSub = ⟨true, true, true, true⟩ := by decide
+  have lvl : ∀ (f : ResumeFacts), f = ⟨true, true, true, true⟩ →
+      ∀ (mm : Option (S → S)) (o : Option S),
+      resumeLevel f mm o = match o with
+        | some s => Seen.own (applyMod mm s)
+        | none => Seen.inherited := by
+    intro f hf mm o
+    cases o with
+    | none => exact resumeLevel_none _ _
+    | some s => subst hf; exact resumeLevel_own rfl rfl rfl _ _
+  have eq1 : resumeNest srcTop srcSub m saved subs =
+      (nestLevels saved subs).map (fun x =>
+        (x.1, match x.2 with
+              | some s => Seen.own (applyMod (m.map (· x.1)) s)
+              | none => Seen.inherited)) := by
+    simp only [resumeNest, nestLevels, List.map_cons, lvl srcTop ht]
+    congr 1
+    apply List.map_congr_left
+    intro x _
+    rw [lvl srcSub hs]
+  refine ⟨eq1, ?_⟩
+  intro q s hmem hid
+  rw [eq1]
+  refine List.mem_map.mpr ⟨(q, some s), hmem, ?_⟩
+  cases m with
+  | none => rfl
+  | some f => simp [applyMod, hid f rfl]
+
+/-- **The Go-slice model of `setNodeKey` implements `childPath`** when the child's path is
+    built in an array of its own (`fresh`), for every growth policy of `append`: the new
+    slice reads the parent's path extended by the key, and every slice that existed before
+    — the parent's, every sibling's — still reads what it read. -/
+theorem fresh_path_never_overwritten (grow : Nat → Nat) (h : GoHeap) (parent : Option GoSlice)
+    (key : String) :
+    let r := setNodeKeyM true grow h parent key
+    r.2.read r.1 = childPath (match parent with | some p => p.read h | none => []) key ∧
+    ∀ s : GoSlice, s.arr < h.length → s.read r.1 = s.read h := by
+  intro r
+  cases parent with
+  | none => exact ⟨goAlloc_read h [key] 1, fun s hs => goAlloc_keeps h [key] 1 s hs⟩
+  | some p =>
+    by_cases hp : p.len = 0
+    · have hr : r = goAlloc h [key] 1 := by simp [r, setNodeKeyM, hp]
+      rw [hr]
+      refine ⟨?_, fun s hs => goAlloc_keeps h [key] 1 s hs⟩
+      rw [goAlloc_read]; simp [childPath, GoSlice.read, hp]
+    · have hr : r = goAlloc h (p.read h ++ [key]) (p.len + 1) := by simp [r, setNodeKeyM, hp]
+      rw [hr]
+      exact ⟨goAlloc_read _ _ _, fun s hs => goAlloc_keeps _ _ _ s hs⟩
+
+/-- **(partial) `setNodeKey` of the source keeps every sibling's path.**  The statement of
+    `fresh_path_never_overwritten` for `setNodeKeyM` run with the *extracted* fact, under the
+    hypothesis that the extracted fact says the child's path gets an array of its own
+    (`nodePathFresh`, from compose/checkpoint.go `setNodeKey`).  Where that fact is `false`
+    the statement is false — `sibling_path_overwritten_when_aliased`. -/
+theorem node_path_kept_partial (hf : FactsC11.nodePathFresh = true) (grow : Nat → Nat)
+    (h : GoHeap) (parent : Option GoSlice) (key : String) :
+    let r := setNodeKeyM FactsC11.nodePathFresh grow h parent key
+    r.2.read r.1 = childPath (match parent with | some p => p.read h | none => []) key ∧
+    ∀ s : GoSlice, s.arr < h.length → s.read r.1 = s.read h := by
+  rw [hf]; exact fresh_path_never_overwritten grow h parent key
+
+/-- **(negation witness) `append(path.path, key)` on the parent's own slice: the second of
+    two sibling nodes overwrites the first one's path.**  Paths k1, k1/k2, k1/k2/k3 are built
+    by successive appends (capacities 1, 2, 4); the two children `a`, `b` of k3 are both
+    appended into the spare fourth slot of the same array, so after `b`'s context is built
+    `a`'s path reads k1/k2/k3/b as well — a modifier that dispatches on the path never sees
+    `a`.  One level higher (children `c`, `d` of k2: length 2 = capacity 2) every append
+    copies, which is why shallow nests do not show it.  With `fresh` both keep their paths.
+    The harness reports this as `C11:paths:modifier-path` (fix:
+    fixes/C11-sibling-node-path-alias.diff). -/
+theorem sibling_path_overwritten_when_aliased :
+    let nest (fresh : Bool) :=
+      let r1 := setNodeKeyM fresh goGrow [] none "k1"
+      let r2 := setNodeKeyM fresh goGrow r1.1 (some r1.2) "k2"
+      let c := setNodeKeyM fresh goGrow r2.1 (some r2.2) "c"
+      let d := setNodeKeyM fresh goGrow c.1 (some r2.2) "d"
+      let r3 := setNodeKeyM fresh goGrow d.1 (some r2.2) "k3"
+      let a := setNodeKeyM fresh goGrow r3.1 (some r3.2) "a"
+      let b := setNodeKeyM fresh goGrow a.1 (some r3.2) "b"
+      (a.2.read a.1, a.2.read b.1, b.2.read b.1, c.2.read b.1, d.2.read b.1)
+    nest false = (["k1", "k2", "k3", "a"], ["k1", "k2", "k3", "b"], ["k1", "k2", "k3", "b"],
+                  ["k1", "k2", "c"], ["k1", "k2", "d"]) ∧
+    nest true = (["k1", "k2", "k3", "a"], ["k1", "k2", "k3", "a"], ["k1", "k2", "k3", "b"],
+                 ["k1", "k2", "c"], ["k1", "k2", "d"]) := by decide
+
+/-- the modifier of a two-sibling nest at depth 4 is called with the two distinct paths -/
+example :
+    (modCalls (nestLevels (none : Option Nat)
+      (.cons (.mk "k1" none (.cons (.mk "k2" none (.cons (.mk "k3" (some 3)
+        (.cons (.mk "a" (some 10) .nil) (.cons (.mk "b" (some 20) .nil) .nil))) .nil)) .nil)) .nil))) =
+    [(["k1", "k2", "k3"], 3), (["k1", "k2", "k3", "a"], 10), (["k1", "k2", "k3", "b"], 20)] := by
+  decide
 
 end EinoV.C11
